@@ -28,11 +28,19 @@
 //! 3. Add `mod foo;` and the arm `"foo" => foo::replay(sc)` in `dispatch` below.
 //! Nothing in run.py needs to change: it compares whatever keys `predicted` contains.
 //!
+//! # Function-level adapters (no message, no runtime)
+//!
+//! `market_state` replays single `fil_actor_market::State` methods: it builds the state on a bare
+//! `MemoryBlockstore`, calls the public method directly inside `runtime::catch_panic` and prints result /
+//! ret / post-state in the same conventions (see market_state.rs).  The runtime keys (caller, receiver, ...)
+//! are not needed by such a scenario.
+//!
 //! Conventions: ids are u64 and mean ID addresses; epochs i64; token amounts are arbitrary precision and
 //! may be given as JSON numbers or decimal strings, they are printed as decimal strings; a failed call is
 //! NOT rolled back by the harness (the VM would): the printed state is what the actor code left behind.
 
 mod json_util;
+mod market_state;
 mod multisig;
 mod paych;
 mod runtime;
@@ -45,7 +53,8 @@ fn dispatch(sc: &Value) -> Result<Value> {
     match actor {
         "paych" => paych::replay(sc),
         "multisig" => multisig::replay(sc),
-        other => Err(anyhow!("unknown actor '{}' (adapters: paych, multisig)", other)),
+        "market_state" => market_state::replay(sc),
+        other => Err(anyhow!("unknown actor '{}' (adapters: paych, multisig, market_state)", other)),
     }
 }
 
